@@ -13,7 +13,7 @@ STUBS = ["non-finiteness model: x/0, log(<=0), sqrt(<0) set a NaN flag that prop
          "range mode exp (underflow below -745, overflow above 709), logaddexp stable", "numpy.linalg.inv/solve closed form (dim_t = 1)", "k_init array init"]
 ASSUMPTIONS = ["finite inputs (symbolic reals), variance floors > 0, statistics consistent with data: n_c >= 0, n_c S_c >= F_c^2, and F_c = S_c = 0 when n_c = 0, t = sum n_c > 0",
                "count floor (mean_var_update_threshold) = machine epsilon: ML weights sum to sum_c max(n_c, eps)/t (the documented slack)"]
-EXHAUSTIVE = ["8 switch subsets for ML and MAP", "all argmin paths of one k-means step including empty clusters and ties", "zero-count components"]
+EXHAUSTIVE = ["8 switch subsets for ML and MAP", "ML step after the floors were re-assigned as a symbolic per-component/per-feature array (raised and lowered entries), variances updated or kept", "all argmin paths of one k-means step including empty clusters and ties", "zero-count components"]
 OUTSIDE = ["sizes beyond those listed", "overflow by magnitude outside exp", "rounding"]
 K_EMPTY = "C13-kmeans-empty-cluster-nan-centroid"
 K_EMPTYV = "C13-kmeans-empty-cluster-nan-variance"
@@ -39,7 +39,7 @@ def degenerate_stats(B, C, D):
     return s, SP
 
 
-def sc_gmm_mstep(B, C, D, trainer, um, uv, uw, zero=None, alpha=None):
+def sc_gmm_mstep(B, C, D, trainer, um, uv, uw, zero=None, alpha=None, refloor=False):
     gmm = B.mod("gmm")
     if trainer == "ml":
         m, MP = make_gmm(B, C, D, "vector", simplex=True, update_means=um, update_variances=uv, update_weights=uw)
@@ -50,6 +50,12 @@ def sc_gmm_mstep(B, C, D, trainer, um, uv, uw, zero=None, alpha=None):
         else:
             av = B.arr("alpha", (C,), lo=0, hi=1) if alpha == "array" else B.real("alpha", lo=0, hi=1)
             m = gmm.GMMMachine(C, trainer="map", ubm=ubm, update_means=um, update_variances=uv, update_weights=uw, map_relevance_factor=None, map_alpha=B.copy(av) if alpha == "array" else av)
+    if refloor:
+        # floors re-assigned after the variances exist, as a per-component / per-feature array that
+        # may raise some entries and lower others; the trained model must respect the *new* floors
+        thr2 = B.arr("thr2", (C, D), pos=True)
+        m.variance_thresholds = B.copy(thr2)
+        MP["thr"] = [[thr2[c, d] for d in range(D)] for c in range(C)]
     s, SP = degenerate_stats(B, C, D)
     if zero is not None:
         # a component that captured nothing at all
@@ -177,6 +183,9 @@ def job_gmm(P, C, D, trainer):
     for um, uv, uw in itertools.product((False, True), repeat=3):
         P.run("%s-m%dv%dw%d" % (trainer, um, uv, uw), sc_gmm_mstep, dict(C=C, D=D, trainer=trainer, um=um, uv=uv, uw=uw), validate=1)
     P.run("%s-zero-component" % trainer, sc_gmm_mstep, dict(C=C, D=D, trainer=trainer, um=True, uv=True, uw=True, zero=C - 1), validate=0)
+    if trainer == "ml":
+        for uv in (False, True):
+            P.run("ml-refloored-v%d" % uv, sc_gmm_mstep, dict(C=C, D=D, trainer="ml", um=True, uv=uv, uw=False, refloor=True), validate=1)
     if trainer == "map":
         for al in ("scalar", "array"):
             P.run("map-alpha-%s" % al, sc_gmm_mstep, dict(C=C, D=D, trainer="map", um=True, uv=False, uw=True, alpha=al), validate=1)
